@@ -81,6 +81,26 @@ def check(an, rep, tier):
                 L.check_pair(rep, 'optima.optima_tt_beam',
                              'running matrix Q after the last core '
                              '(variant %d, d=%d)' % (vi, d), q, None)
+    import ast as _ast
+    fcs = prog.func('core.core_stab')
+    okm = False
+    for node in _ast.walk(fcs.node):
+        if isinstance(node, _ast.Assign) and \
+                isinstance(node.targets[0], _ast.Name) and \
+                node.targets[0].id == 'v_max' and \
+                isinstance(node.value, _ast.Call):
+            outer = (prog.dotted(node.value.func) or '').split('.')[-1]
+            inner = node.value.args[0] if node.value.args else None
+            iname = (prog.dotted(inner.func) or '').split('.')[-1] \
+                if isinstance(inner, _ast.Call) else (
+                    'abs' if isinstance(inner, _ast.Call) else None)
+            okm = outer in ('max', 'amax') and iname in ('abs', 'absolute')
+    rep.add('P-maxmod', 'core.core_stab', 'v_max = max(abs(G))',
+            'ok' if okm else 'violation',
+            '' if okm else 'the scaling reference must be the largest modulus '
+            'of the core (maximum of the absolute values); anything else '
+            'under-scales cores whose dominant entry is negative',
+            line=fcs.node.lineno, file=fcs.module.path)
     L.check_saturation(prog, rep)
     L.check_stab_per_step(prog, rep)
     rep.floor('U-ledger', 14, 'ledger identities')
